@@ -628,6 +628,16 @@ void do_value(std::ostream &out, toks &t)
         auto a = rd(); auto b = rd();
         cmp_nohash(out, a, b);
     }
+    else if (ty == "gptr")
+    {
+        // a glyph constructed from a pointer into a (NUL-terminated) text that may
+        // go on after its first character
+        auto const b = unhex(t.str());
+        std::string const text(b.begin(), b.end());
+        glyph const g(text.c_str());
+        out << "G " << int(g.charset_.value_) << " " << int(g.ucharacter_[0]) << " " << int(g.ucharacter_[1]) << " "
+            << int(g.ucharacter_[2]) << "\n";
+    }
     else if (ty == "show")
     {
         // k tagged values inserted into ONE stream, each followed by a newline
